@@ -111,7 +111,7 @@ def corrupt(ev, rng):
     elif k == "Mst":
         r["total"] += 1
         w = "total"
-    elif k == "Tri":
+    elif k in ("Tri", "Leap"):
         r["count"] += 1
         w = "count"
     elif k == "Lcc":
